@@ -59,3 +59,18 @@ CLAIMED["C07"] = (
     "Theorems in coq/Props/C07.v (closed under the global context): committors are 0 on sources, 1 on sinks, lie in [0,1] and satisfy q_i = sum_j T_ij q_j elsewhere; mean first-passage times are 0 on sinks and t_i = lag + sum_j T_ij t_j elsewhere, linear in the lag; every column of the all-pairs table satisfies the single-sink first-step equations and equals the single-sink computation (uniqueness).",
     "spsolve / np.linalg.solve / inv / eq_probs are modelled by an exact Gauss-Jordan whose output is re-checked per case and compared with the doubles at 1e-9; existence of a solution for ergodic input, dense/sparse agreement and 'inputs not modified' rest on the correspondence runs.",
     "DESIGN.md 7 C07")
+CLAIMED["C10"] = (
+    "Coq proof over a model regenerated from source (translator for partition_indices / partition_list) plus hand models of nearest-centre sweep, find_cluster_centers, compute_batches; differential correspondence evaluated in Coq; batch_reassign checked on the real code against per-frame RMSD",
+    "Theorems in coq/Props/C10.v (closed under the global context): the nearest-centre sweep returns the minimal distance and the first centre attaining it for any non-empty centre list; partition_list preserves every value and order and concatenates back (rejects wrong totals); partition_indices maps every flat index to the unique (trajectory, frame) pair addressing the same frame, and back; the per-label centre finder returns a member of smallest distance; batches are consecutive so batch reassignment keeps trajectory order.",
+    "translator/tr_partition.py + py2coq.py; loop skeletons Base/PartitionBase.v checked by correspondence; NumPy masking/argmin/unique and RaggedArray construction modelled; mdtraj loading and md.rmsd trusted (batch_reassign: oracle only).",
+    "DESIGN.md 7 C10")
+CLAIMED["C06"] = (
+    "Coq proof (coherence invariant + refinement over operation histories) of a two-representation model of RaggedArray; differential execution of the model against /repo on generated operation sequences, all three slots compared after every operation (evaluated in Coq)",
+    "Theorems in coq/Props/C06.v (closed under the global context): both constructors establish and every writer / every history keeps the three-slot coherence invariant (rows = partition data lens); any history refines the same history on a plain list of rows, error for error; a rejected write changes nothing; every observation is a function of the model rows; scalar and binary operators act element-wise and keep the row structure; cell writes keep lengths and leave unselected cells alone.",
+    "aliasing clauses (copy never aliases, operators return new objects, operands unaltered) are heap facts checked at run time only (partial); NumPy fancy assignment/broadcasting modelled not verified; inputs not generated (not claimed): RaggedArray assigned to a single integer row, length-1 column list broadcast, augmented assignment on an empty selection, operands of different total size, step 0, empty rows.",
+    "DESIGN.md 7 C06")
+CLAIMED["C05"] = (
+    "Coq refinement proof of an executable model of the RaggedArray read path (flat-offset arithmetic vs list-of-rows semantics, Python slice semantics from Base/PySlice.v); differential correspondence evaluated in Coq, exhaustive small scope in the thorough tier",
+    "Theorems in coq/Props/C05.v (closed under the global context): for every ragged array (any number of rows, any lengths) and every index form of the supported grammar - row, row slice, row list, (row, col), paired fancy indices, 2-D slice x slice / list x slice / slice x int / slice x list with positive or negative bounds and steps, row x slice, boolean ragged mask - and for lengths/starts/shape/size/len/iteration/flatten, the code's flat-offset arithmetic returns exactly the list-of-rows result, error for error; an out-of-row element access always raises; both constructors agree.",
+    "hand model tied to enspara/ra/ra.py by correspondence (84 length vectors with <= 3 rows of length 1..4, all row indices / (row, col) pairs in -5..5, all row slices and a[:, s:e:k] with bounds in {None, -5..5} and steps {None, +-1, +-2, +-3}, 237000 reads in the thorough tier); NumPy basic/fancy indexing, cumsum, where modelled not verified; _slice_to_list not machine-translated; dtype checked by the oracle only.",
+    "DESIGN.md 7 C05")
